@@ -46,6 +46,8 @@ def num(x):
 def classify(cfg):
     """model class of a configuration, for matching known findings"""
     n = cfg.get("base", cfg["name"])
+    if n.startswith("bare_"):
+        n = n[5:]
     if n.startswith("fn_pcsaft"):
         return "Functional(PcSaft)"
     if n.startswith("uv_bh"):
@@ -93,7 +95,7 @@ def run(ctx):
             is_edge = cfg.get("base", cfg["name"]) != cfg["name"]
             if k.get("model") in (cls, "any") and k.get("kind") == kind \
                     and (k.get("contribution") in (None, contribution) or (is_edge and "configs" in k)) \
-                    and ("configs" not in k or cfg.get("base", cfg["name"]) in k["configs"]):
+                    and ("configs" not in k or cfg.get("base", cfg["name"]).replace("bare_", "") in k["configs"]):
                 V.report_known(ctx, e)
                 return
         V.violation(ctx, "%s [%s]: %s" % (cfg["name"], cls, what), dict(detail, config=cfg["name"], model_class=cls,
